@@ -29,4 +29,37 @@ theorem insert_internal_translated {N : Nat} (t : Quotient.St N) (q : Fin N) (r 
       | none => Flow.panic
       | some (t', res) => Flow.ret (qfRes res, (occL t', contL t', shiftL t', remL t', t'.n)) := qf_insert_internal_eq t q r
 
+/-- the public `query` / `insert` as translated, on the (quotient, remainder) that `calc_quotient_remainder`
+(`calc_quotient_remainder_translated`) yields for the element's 64-bit hash: the model's `Quotient.query` /
+`Quotient.insert` -/
+theorem query_translated {N : Nat} (qb rb : Nat) (t : Quotient.St N) (fp quo rm : Nat)
+    (hc : qf_calc_quotient_remainder qb rb fp = (quo, rm)) (h : quo < N) :
+    qf_query (occL t) (contL t) (shiftL t) (remL t) quo rm =
+      match Quotient.query qb rb t fp with
+      | none => Flow.panic
+      | some b => Flow.ret b := by
+  have hq := qf_query_eq t ⟨quo, h⟩ rm
+  simp only at hq
+  rw [hq]
+  rw [qf_calc_quotient_remainder_eq] at hc
+  unfold Quotient.query
+  rw [hc]
+  simp only [h, dif_pos]
+  cases Quotient.scan t ⟨quo, h⟩ rm false <;> rfl
+
+theorem insert_translated {N : Nat} (qb rb : Nat) (t : Quotient.St N) (fp quo rm : Nat)
+    (hc : qf_calc_quotient_remainder qb rb fp = (quo, rm)) (h : quo < N) :
+    qf_insert (occL t) (contL t) (shiftL t) (remL t) t.n quo rm =
+      match Quotient.insert qb rb t fp with
+      | none => Flow.panic
+      | some (t', res) => Flow.ret (qfRes res, (occL t', contL t', shiftL t', remL t', t'.n)) := by
+  have hq := qf_insert_eq t ⟨quo, h⟩ rm
+  simp only at hq
+  rw [hq]
+  rw [qf_calc_quotient_remainder_eq] at hc
+  unfold Quotient.insert
+  rw [hc]
+  simp only [h, dif_pos]
+  rfl
+
 end Pds.Tie.C13
